@@ -21,11 +21,35 @@ def main():
     from pyvc import runner
     mod = importlib.import_module('props.' + a.pid)
     if a.replay:
+        # replay a recorded violation against the real code of --repo: the bounded stand-in that produced the failing input is run again,
+        # or the property's replay adapter searches a native failing input for the recorded obligation.  Exit 1 if it fails (again), 0 if not.
         with open(a.replay) as fh:
-            print(json.dumps(json.load(fh), indent=1))
-        rp = getattr(mod, 'replay_file', None)
-        if rp is not None:
-            sys.exit(rp(a.replay, a.repo))
+            rec = json.load(fh)
+        print(json.dumps(rec, indent=1)[:6000])
+        prop = mod.PROP
+        obl = rec.get('obligation') or ''
+        witness = None
+        if '.bounded.' in obl:
+            name = obl.split('.bounded.', 1)[1]
+            for b in prop.bounded:
+                if b.name == name or b.name.endswith(name):
+                    d = runner.run_bounded(b, a.repo, a.tier, seed)
+                    fails = d.get('failures') or []
+                    witness = fails[0] if fails else None
+                    if d.get('error'):
+                        print('replay error: %s' % d['error'])
+                        sys.exit(3)
+        elif prop.replay is not None:
+            try:
+                witness = prop.replay({'name': obl, 'fn': rec.get('function') or '', 'detail': rec.get('solver_output') or {}}, a.repo, seed)
+            except Exception:
+                import traceback
+                traceback.print_exc()
+                sys.exit(3)
+        if witness is not None:
+            print('REPLAY: the real code at %s fails: %s' % (a.repo, json.dumps(witness, default=str)[:1500]))
+            sys.exit(1)
+        print('REPLAY: no failing input on the real code at %s for %s' % (a.repo, obl))
         sys.exit(0)
     try:
         code = runner.run(mod.PROP, tier=a.tier, seed=seed, repo=a.repo, update_lock=a.update_lock, verbose=a.v)
